@@ -16,8 +16,19 @@ package policer
 //@   property C26
 //@   callee *).headObject
 //@   pureeffect
-//@   assigns confirmed
+//@   assigns confirmed, lastHeaderRead
 //@   defines confirmed(0) == old(confirmed(0)) + ite(err == nil, 1, 0)
+//@   defines lastHeaderRead(0) == (err == nil)
+
+// A node is recorded as a holder in the pass's node cache - which decides, for a node outside
+// the container, whether "at least one correct replica exists" - only after its header was
+// read (replication successes are recorded by the replicator through
+// SubmitSuccessfulReplication).
+//@ ghost field lastHeaderRead(x int) bool
+//@ callrule holder_mark_only_for_a_confirmed_copy in (*Policer).processNodes
+//@   property C26
+//@   callee (*policer.nodeCache).submitReplicaHolder
+//@   requires [node_recorded_as_holder_only_after_its_header_was_read] lastHeaderRead(0)
 
 // the helpers called by processNodes work on the node cache, the metrics and the network
 // view; they are assumed not to touch the placement context or the function's variables
